@@ -34,8 +34,112 @@ def run(chk):
     chk.not_decided = ["whether central differences of a particular user cost are accurate enough for the tolerance (the 'reports failure when a component is wrong by more than tol' clause)"]
 
 
+def safe_canon(e, sc, depth=0):
+    try:
+        return preds.canon(e, sc, depth)
+    except Broken:
+        return "?"
+
+
+def check_probe(chk, F, cls, f, inst):
+    """R1 / R2 on the meaning of the probe loop: checkGradients is interpreted (Engine A) with evaluate() as an opaque
+    call whose first argument is recorded as 'x with component i replaced by ...'; helper lambdas, renamed locals and
+    index types do not matter."""
+    import sympy as sp
+    from .. import sym
+    from ..sym import Interp, Unsupported, Container, Ref
+    calls = []
+    xname = f["params"][0]["name"]
+    eps = sp.Symbol(f["params"][5]["name"], real=True)
+
+    def hook(c, e, env, I):
+        if c.get("name") == "evaluate" and c.get("cls") == cls:
+            args = [I.evl(a, env) for a in e["args"][:2]]
+            xc = I.load(args[0]) if isinstance(args[0], Ref) else args[0]
+            gc = I.load(args[1]) if isinstance(args[1], Ref) else args[1]
+            if not isinstance(xc, Container):
+                raise Unsupported("evaluate() called on something that is not a vector the interpreter tracks")
+            last = {}
+            for key, v in xc.store:
+                last[tuple(str(k_) for k_ in key)] = (key, v)
+            calls.append({"x": xc.name, "origin": getattr(xc, "copy_of", (xc.name, None))[0], "store": list(last.values()), "grad": gc.name if isinstance(gc, Container) else str(gc),
+                          "rest": [pp(a) for a in e["args"][2:]], "seq": I.tick(), "depth": len(I.loop_stack), "line": e.get("line")})
+            if isinstance(gc, Container):
+                I.record(gc.name, ("*",), "=", ("opaque", "gradient of evaluation %d" % len(calls)), e)
+                gc.bump()
+            return sp.Symbol("EVAL%d" % len(calls), real=True)
+        return NotImplemented
+    I = Interp(F, cls, on_call=hook)
+    I.opaque_conditions = True
+    wsn = cls + "::Workspace"
+    I.alias_records[wsn] = I.make_value("WS", {"c": "record", "n": wsn})
+    env = {p_["id"]: I.make_value(p_["name"], p_["ty"]) for p_ in f["params"]}
+    body = f["body"]["body"]
+    idxs = [k_ for k_, s_ in enumerate(body) if any(n.get("k") == "call" and callee(n).get("name") == "evaluate" and callee(n).get("cls") == cls for n in walk(s_))]
+    if not idxs:
+        raise Broken("checkGradients: no call of evaluate() at statement level")
+    try:
+        for s_ in body[:idxs[-1] + 1]:
+            I.exec(s_, env)
+    except Unsupported as ex:
+        raise Broken("checkGradients not analysable: %s" % ex)
+    where = loc(f)
+    probe = [c for c in calls if c["depth"] >= 1]
+    loops = [L for L in I.loops if any(e.target.endswith(".numerical") or e.target == "numerical" for e in L.effects)]
+    if len(loops) != 1:
+        raise Broken("checkGradients: the loop filling the numerical gradient was not identified")
+    L = loops[0]
+    i = L.var
+    xr = sp.Symbol(xname + ".rows", integer=True, nonnegative=True)
+    ue = L.hi if (L.cond_op == "<" and L.step == 1) else (L.hi + 1 if (L.cond_op == "<=" and L.step == 1) else None)
+    ok_rng = L.lo == 0 and ue is not None and str(ue) in (xname + ".rows", xname + ".size")
+    chk.ob("C19-R1", "%s%s loop visits every component of x" % (cls, inst), bool(ok_rng), where, "%s .. %s" % (L.lo, ue), construct="%s/checkGradients%s/range" % (cls, inst))
+    # the two probes: x with component i at its value on entry +eps / -eps
+    def shift(c):
+        st = c["store"]
+        if len(st) != 1 or len(st[0][0]) != 1 or not sym.is_zero(st[0][0][0] - i) or c["origin"] != xname:
+            return None
+        own = [a for a in sp.sympify(st[0][1]).atoms(sp.Indexed) if str(a.base).split("#")[0] == c["x"] and sym.is_zero(a.indices[0] - i)]
+        return sp.expand(st[0][1] - own[0]) if len(own) == 1 else None
+    sh = [shift(c) for c in probe]
+    okp = len(probe) == 2 and all(x_ is not None for x_ in sh) and {sp.simplify(x_ / eps) for x_ in sh} == {sp.Integer(1), sp.Integer(-1)}
+    chk.ob("C19-R1", "%s%s each component is evaluated at +eps and at -eps around its original value" % (cls, inst), bool(okp), where, "probe offsets %s" % sh, construct="%s/checkGradients%s/perturb" % (cls, inst))
+    # restored: the last write to the probe vector in an iteration puts the entry value back, nothing else is written
+    pw = [e for e in L.effects if probe and e.target == probe[0]["x"]]
+    okr = bool(pw) and all(len(e.key) == 1 and sym.is_zero(e.key[0] - i) for e in pw)
+    if okr:
+        lastv = sp.sympify(pw[-1].value)
+        okr = isinstance(lastv, sp.Indexed) and str(lastv.base).split("#")[0] == probe[0]["x"] and sym.is_zero(lastv.indices[0] - i)
+    outside = [e for e in I.effects if probe and e.target == probe[0]["x"] and e.op not in ("resize",) and not (isinstance(e.value, tuple) and e.value[0] == "copy")]
+    chk.ob("C19-R1", "%s%s the component is restored before the next iteration and after the loop" % (cls, inst), bool(okr) and not outside, where,
+           "writes to the probe vector per iteration: %s" % [(str(e.key[0]), str(e.value)) for e in pw], construct="%s/checkGradients%s/restore" % (cls, inst))
+    ne = [e for e in L.effects if e.target.endswith("numerical")]
+    okf = False
+    if okp and len(ne) == 1 and len(ne[0].key) == 1 and sym.is_zero(ne[0].key[0] - i):
+        plus = sp.Symbol("EVAL%d" % (calls.index(probe[[sp.simplify(x_ / eps) for x_ in sh].index(1)]) + 1), real=True)
+        minus = sp.Symbol("EVAL%d" % (calls.index(probe[[sp.simplify(x_ / eps) for x_ in sh].index(-1)]) + 1), real=True)
+        okf = sym.is_zero(sp.sympify(ne[0].value) - (plus - minus) / (2 * eps))
+    chk.ob("C19-R1", "%s%s numerical(i) = (c+ - c-) / (2 eps)" % (cls, inst), okf, where, "numerical[i] = %s" % (ne[0].value if ne else None), construct="%s/checkGradients%s/formula" % (cls, inst))
+    # R2
+    rests = {tuple(c["rest"][:3]) for c in calls}
+    pnames = [p_["name"] for p_ in f["params"][1:4]]
+    chk.ob("C19-R2", "%s%s all %d evaluations use the caller's three functors in order" % (cls, inst, len(calls)), len(rests) == 1 and list(next(iter(rests))) == pnames and len(calls) >= 3, where, str(rests),
+           construct="%s/checkGradients%s/functors" % (cls, inst))
+    wsargs = {c["rest"][3] if len(c["rest"]) > 3 else None for c in calls}
+    chk.ob("C19-R2", "%s%s all evaluations use the same workspace" % (cls, inst), len(wsargs) == 1 and None not in wsargs and str(next(iter(wsargs))).startswith("&"), where, str(wsargs),
+           construct="%s/checkGradients%s/workspace" % (cls, inst))
+    final = [c for c in calls if c["depth"] == 0]
+    okx = bool(probe) and all(c["x"] != xname and c["grad"] not in {d["grad"] for d in final} for c in probe)
+    chk.ob("C19-R2", "%s%s perturbed evaluations read the perturbed copy and write a scratch gradient" % (cls, inst), okx, where, str([(c["x"], c["grad"]) for c in probe]), construct="%s/checkGradients%s/scratch" % (cls, inst))
+    last = max(calls, key=lambda c: c["seq"]) if calls else None
+    okl = last is not None and last["depth"] == 0 and last["x"] == xname and not last["store"] and last["grad"].endswith("analytical") and all(c["seq"] < last["seq"] for c in probe)
+    chk.ob("C19-R2", "%s%s the last evaluation before returning is at the unperturbed x into the analytic gradient" % (cls, inst), okl, loc(f, {"line": last["line"]} if last else None),
+           str((last["x"], last["grad"])) if last else "", construct="%s/checkGradients%s/final-eval" % (cls, inst))
+
+
 def check_primary(chk, F, cls, f):
     chk.saw(f)
+    canon = safe_canon
     inst = f["full"].split("checkGradients")[1][:60]
     sc = Scope(f)
     P = {p["name"]: "$p%d" % k for k, p in enumerate(f["params"])}
@@ -107,38 +211,12 @@ def check_primary(chk, F, cls, f):
                 viol.append(("component left at '%s' when the loop advances" % pert, node.get("line")))
         return [(pert, old)]
 
-    fl = Flow(F, transfer)
-    out, exits = fl.run(f, ("orig", False))
-    where = loc(f, lp)
-    # R1
-    p_, t_ = preds.literal(lp["cond"], sc)
-    rng = preds.lit_zero(iv) if hasattr(preds, "lit_zero") else (strip_copy(iv.get("init")).get("v") == "0")
-    ok_rng = rng and p_ and t_ == "%%i < %s.size()" % X and lp["inc"].get("k") == "un" and lp["inc"]["op"] == "++"
-    chk.ob("C19-R1", "%s%s loop visits every component of x" % (cls, inst), bool(ok_rng), where, "for %%i from %s while %s" % (pp(iv.get("init")), t_), construct="%s/checkGradients%s/range" % (cls, inst))
-    loop_calls = [c for c in calls if c["in_loop"]]
-    perts = [c["pert"] for c in loop_calls]
-    chk.ob("C19-R1", "%s%s each component is evaluated at +eps and at -eps around its original value" % (cls, inst), sorted(perts) == ["+eps", "-eps"], where, "evaluations at %s" % perts,
-           construct="%s/checkGradients%s/perturb" % (cls, inst))
-    chk.ob("C19-R1", "%s%s the component is restored before the next iteration and after the loop" % (cls, inst), not viol and all(s[0] == "orig" for s, _ in exits), where,
-           str(viol) if viol else "restored on every path", construct="%s/checkGradients%s/restore" % (cls, inst))
-    num = [(k, v) for k, v in formula.items() if k.endswith(".numerical[%i]")]
-    want = "((EV[+eps] - EV[-eps]) / %s)" % preds.cbin("*", "2", EPS)
-    chk.ob("C19-R1", "%s%s numerical(i) = (c+ - c-) / (2 eps)" % (cls, inst), len(num) == 1 and num[0][1][0] == want, where, "numerical[i] = %s" % (num[0][1][0] if num else None),
-           construct="%s/checkGradients%s/formula" % (cls, inst))
-    # R2
-    functors = [P["tf"], P["wf"], P["ifc"]]
-    same = all(c["args"][2:5] == functors for c in calls)
-    ws_args = {c["args"][5] for c in calls}
-    chk.ob("C19-R2", "%s%s all %d evaluations use the caller's three functors in order" % (cls, inst, len(calls)), same and len(calls) == 4, loc(f), str([c["args"][2:5] for c in calls][:2]),
-           construct="%s/checkGradients%s/functors" % (cls, inst))
-    chk.ob("C19-R2", "%s%s all evaluations use the same workspace" % (cls, inst), len(ws_args) == 1 and next(iter(ws_args)).startswith("(&"), loc(f), str(ws_args), construct="%s/checkGradients%s/workspace" % (cls, inst))
-    okx = all(c["args"][0] == "%xtemp" for c in loop_calls) and all(c["args"][1] != calls[0]["args"][1] for c in loop_calls)
-    chk.ob("C19-R2", "%s%s perturbed evaluations read the perturbed copy and write a scratch gradient" % (cls, inst), okx, where, str([c["args"][:2] for c in loop_calls]), construct="%s/checkGradients%s/scratch" % (cls, inst))
-    last = calls[-1] if calls else None
-    okl = last is not None and not last["in_loop"] and last["args"][0] == X and last["args"][1].endswith(".analytical") and last["pert"] == "orig"
-    # nothing evaluates after it
-    chk.ob("C19-R2", "%s%s the last evaluation before returning is at the unperturbed x into the analytic gradient" % (cls, inst), okl, loc(f, {"line": last["line"]} if last else None),
-           str(last["args"][:2]) if last else "", construct="%s/checkGradients%s/final-eval" % (cls, inst))
+    try:
+        fl = Flow(F, transfer)
+        out, exits = fl.run(f, ("orig", False))
+    except Broken:
+        pass        # the shape-based walk only collects the result formulas for R3; R1 / R2 are decided semantically below
+    check_probe(chk, F, cls, f, inst)
     # R3
     def val(suffix):
         ks = [k for k in formula if k.endswith(suffix)]
@@ -158,7 +236,8 @@ def check_primary(chk, F, cls, f):
     chk.ob("C19-R3", "%s%s rel_error = error/|analytical| guarded by |analytical| > 1e-9" % (cls, inst), rel in (want_rel, alt), loc(f), str(rel), construct="%s/checkGradients%s/rel" % (cls, inst))
     va = val(".valid")
     chk.ob("C19-R3", "%s%s valid = error_norm < tol" % (cls, inst), va in ("(%s.error_norm < %s)" % (base, TOL), "(%s > %s.error_norm)" % (TOL, base)), loc(f), str(va), construct="%s/checkGradients%s/verdict" % (cls, inst))
-    rets = [n for n in walk(f["body"]) if n.get("k") == "return"]
+    from ..facts import walk_own
+    rets = [n for n in walk_own(f["body"]) if n.get("k") == "return"]
     okr = len(rets) == 1 and canon(rets[0]["e"], sc) == base
     chk.ob("C19-R3", "%s%s returns the filled result" % (cls, inst), okr, loc(f), "", construct="%s/checkGradients%s/return" % (cls, inst))
 
